@@ -31,6 +31,8 @@ Init == l = 1 /\ viol = {} /\ info = NoRec /\ exp = NoRec /\ reqs = <<>> /\ seqN
 Ev == Trace[l]
 Has(r, f) == f \in DOMAIN r
 InSess == Has(info, "insess") /\ info.insess
+\* a call made on the connection itself while a session is open on it (scripts that mix the two) uses the null session
+CallInSess == InSess /\ ~(Has(exp, "sessionless") /\ exp.sessionless)
 Prop == IF Has(exp, "prop") THEN exp.prop ELSE "HARNESS"
 Agrees(got, want) == \A k \in DOMAIN want : k \in DOMAIN got /\ got[k] = want[k]
 Check(prop, pred_, ok) == IF ok THEN {} ELSE
@@ -48,10 +50,10 @@ AbstractSess(e) ==
   LET p  == IF Has(e, "plain") /\ Len(e.plain) > 0 THEN StripConfPad(e.plain) ELSE Reject("noplain")
       mm == IF p.ok THEN ParseReqMsg(p.msg) ELSE Reject("nopad")
   IN IF mm.ok THEN [pt |-> 0, netfn |-> mm.netfn, cmd |-> mm.cmd, data |-> mm.data] ELSE [pt |-> -3, netfn |-> -1, cmd |-> -1, data |-> <<>>]
-Abstract(e) == IF InSess THEN AbstractSess(e) ELSE AbstractNull(e.raw)
+Abstract(e) == IF CallInSess THEN AbstractSess(e) ELSE AbstractNull(e.raw)
 
 TxViol(e) ==
-  IF InSess
+  IF CallInSess
   THEN LET w == ParseWrapper(e.raw, info.integLen)
            p == IF Has(e, "plain") /\ Len(e.plain) > 0 THEN StripConfPad(e.plain) ELSE Reject("noplain")
            mm == IF p.ok THEN ParseReqMsg(p.msg) ELSE Reject("nopad")
@@ -145,8 +147,8 @@ Step ==
                                       name |-> "", err |-> FALSE, ntx |-> 0, codes |-> <<>>]
                         /\ UNCHANGED <<info, seqN, ivs, prevM>>
     [] e.ev = "tx" -> /\ reqs' = (IF Has(info, "notx") /\ info.notx THEN reqs ELSE Append(reqs, Abstract(e)))
-                      /\ seqN' = (IF InSess THEN seqN + 1 ELSE seqN)
-                      /\ ivs' = (IF InSess /\ Len(e.raw) >= 32 THEN ivs \cup {Sub(e.raw, 16, 32)} ELSE ivs)
+                      /\ seqN' = (IF CallInSess THEN seqN + 1 ELSE seqN)
+                      /\ ivs' = (IF CallInSess /\ Len(e.raw) >= 32 THEN ivs \cup {Sub(e.raw, 16, 32)} ELSE ivs)
                       /\ fired' = (IF Has(e, "rule") THEN fired \cup {e.rule} ELSE fired)
                       \* for a session open only the commands of the cipher suite enumeration count as commands
                       /\ mcall' = (IF mcall.kind \in {"opendisc", "disc"} /\ Abstract(e).pt # 0 THEN mcall ELSE [mcall EXCEPT !.ntx = @ + 1])
